@@ -39,7 +39,7 @@ var bsProdKinds = []kindInfo{
 }
 
 var txProdKinds = []kindInfo{
-	{"string", true}, {"ptr-string", true}, {"named-string", true}, {"ptr-named-string", true}, {"text-marshaler", true},
+	{"string", true}, {"ptr-string", true}, {"named-string", true}, {"ptr-named-string", true}, {"text-marshaler", true}, {"text-marshaler+stringer", true},
 	{"error", true}, {"stringer", true}, {"struct", true}, {"ptr-struct", true}, {"strings", true},
 	{"nil", false}, {"int", false}, {"ptr-int", false}, {"map", false}, {"ptr-any", false}, {"bool", false},
 	{"nil-ptr-string", false}, {"nil-ptr-struct", false},
@@ -153,6 +153,11 @@ func (s *bmSrc) MarshalBinary() ([]byte, error) { return append([]byte(nil), s.b
 type tmSrc struct{ b []byte }
 
 func (s *tmSrc) MarshalText() ([]byte, error) { return append([]byte(nil), s.b...), nil }
+
+// tmStrSrc has a wire form (MarshalText) and a display form (String) that differ.
+type tmStrSrc struct{ tmSrc }
+
+func (s *tmStrSrc) String() string { return "display form of " + string(s.b) }
 
 type strSrc struct{ s string }
 
@@ -533,6 +538,9 @@ func (c *run) makeSource(kind string, content []byte) source {
 		return source{arg: &bmSrc{b: content}, expect: content}
 	case "text-marshaler":
 		return source{arg: &tmSrc{b: content}, expect: content}
+	case "text-marshaler+stringer":
+		// like time.Time or *big.Float: a display form and a wire form; only the wire form reads back
+		return source{arg: &tmStrSrc{tmSrc{b: content}}, expect: content}
 	case "error":
 		return source{arg: &errSrc{s: str}, expect: content}
 	case "stringer":
